@@ -185,8 +185,10 @@ class ModelModifier:
     # buffer offsets.
 
     # remove all the constant from the model.
+    # Zero-length constants stay in place: offset/size 0 are flatbuffer defaults
+    # (not serialized), which would shift every offset calculated below.
     for buffer in quantized_model.buffers:
-      if buffer.data is not None:
+      if buffer.data is not None and len(buffer.data):
         buffer.data = None
         buffer.offset = 1
         buffer.size = 1
@@ -198,7 +200,7 @@ class ModelModifier:
       dummy_bytearray += b'\0'
     for buffer_idx, buffer in enumerate(quantized_model.buffers):
       buffer_data = self._constant_map[buffer_idx]
-      if buffer_data is None:
+      if buffer_data is None or not len(buffer_data):
         continue
       buffer.offset = len(dummy_bytearray)
       buffer.size = len(buffer_data)
@@ -215,7 +217,7 @@ class ModelModifier:
       model_bytearray += b'\0'
     for buffer_idx, _ in enumerate(quantized_model.buffers):
       buffer_data = self._constant_map[buffer_idx]
-      if buffer_data is None:
+      if buffer_data is None or not len(buffer_data):
         continue
       model_bytearray += buffer_data
       while len(model_bytearray) % 16:
